@@ -263,18 +263,35 @@ def lhsRow (o : Oracle) (d : Dom) (n : Nat) (ρ : Row) : List Row :=
   let kept := filterIdx (o.acc 0) (forRow o d n ρ)
   if kept.length = n then kept else kept ++ forRow o d (n - kept.length) ρ
 
+/-- the rescaled grid size of `GridSampler._resample_grid` -/
+def scaledN (n got : Nat) : Nat := if got = 0 then 10 * n else n * n / got
+
+/-- the per-row loop of `_sample_n_points_with_filter` -/
+def filterLoopRow (o : Oracle) (d : Dom) (n : Nat) (ρ : Row) : Except Err (List Row) :=
+  match accumLoop n (fun _ => forRow o d n ρ) o.acc o.fuel 0 [] with
+  | some r => .ok r
+  | none => .error .noValid
+
+/-- GridSampler with a filter, one row: filtered grid; if it does not have exactly n points a rescaled
+    filtered grid; if that does not fit either, n filtered random points are appended; cut to n -/
+def gridFilterRow (o : Oracle) (d : Dom) (n : Nat) (ρ : Row) : Except Err (List Row) :=
+  let g1 := filterIdx (o.acc 0) (forRow o d n ρ)
+  if g1.length = n then .ok g1
+  else
+    let g2 := filterIdx (o.acc 1) (forRow o d (scaledN n g1.length) ρ)
+    if g2.length = n then .ok g2
+    else match accumLoop n (fun _ => forRow o d n ρ) (fun r => o.acc (r + 2)) o.fuel 0 [] with
+      | some r => .ok ((g2 ++ r).take n)
+      | none => .error .noValid
+
 def leafSample (o : Oracle) (kind : LeafKind) (d : Dom) (n : Nat) (filt : Bool) (ps : List Row) :
     Except Err (List Row) :=
-  let loop (ρ : Row) : Except Err (List Row) :=
-    match accumLoop n (fun _ => forRow o d n ρ) o.acc o.fuel 0 [] with
-    | some r => .ok r
-    | none => .error .noValid
   match kind, filt with
   | .uniform, false =>
       -- rand_points.join(self._repeat_params(params, len(self)))
       joinRows (d.sample o.choose n ps) (repeatParams ps n)
-  | .uniform, true => perRow loop (rowsOr1 ps)
-  | .gaussian, _ => perRow loop (rowsOr1 ps)
+  | .uniform, true => perRow (filterLoopRow o d n) (rowsOr1 ps)
+  | .gaussian, _ => perRow (filterLoopRow o d n) (rowsOr1 ps)
   | .lhs, _ => .ok ((rowsOr1 ps).flatMap (lhsRow o d n))
   | k, false =>   -- grid, expInterval
       if k = .grid && !d.gridOk then .error .notImplemented
@@ -286,17 +303,7 @@ def leafSample (o : Oracle) (kind : LeafKind) (d : Dom) (n : Nat) (filt : Bool) 
         let pts := d.sample o.choose n []
         joinRows (tile (max 1 ps.length) pts) (repeatParams ps pts.length)
   | _, true =>    -- GridSampler with a filter
-      if !d.gridOk then .error .notImplemented else
-      (rowsOr1 ps) |> perRow fun ρ =>
-        let g1 := filterIdx (o.acc 0) (forRow o d n ρ)
-        if g1.length = n then .ok g1
-        else
-          let scaled := if g1.length = 0 then 10 * n else n * n / g1.length
-          let g2 := filterIdx (o.acc 1) (forRow o d scaled ρ)
-          if g2.length = n then .ok g2
-          else match accumLoop n (fun _ => forRow o d n ρ) (fun r => o.acc (r + 2)) o.fuel 0 [] with
-            | some r => .ok ((g2 ++ r).take n)
-            | none => .error .noValid
+      if !d.gridOk then .error .notImplemented else perRow (gridFilterRow o d n) (rowsOr1 ps)
 
 /-- `DataSampler.sample_points` -/
 def dataSample (v : Var) (id m : Nat) (ps : List Row) : Except Err (List Row) :=
